@@ -208,7 +208,9 @@ def run(report, tier, seed):
         arrs = [numpy.array(c, dtype=numpy.int64).reshape(shape) for c in cols]
         try:
             with numpoly.global_options(retain_coefficients=g_rc, retain_names=g_rn):
-                p = numpoly.polynomial_from_attributes(rows, arrs, tnames, retain_coefficients=e_rc, retain_names=e_rn)
+                # an explicit allocation (any number >= the number of rows) must not change anything (D36)
+                akw = {"allocation": rng.choice([N, N + 1, 2 * N - 1, 2 * N, 2 * N + 3])} if rng.random() < 0.35 else {}
+                p = numpoly.polynomial_from_attributes(rows, arrs, tnames, retain_coefficients=e_rc, retain_names=e_rn, **akw)
             if not rc and any(any(r) and not any(c) for r, c in zip(rows, cols)) and len(rows) == len(cols):
                 kept = [tuple(r) for r in p.exponents.tolist()]
                 if any(tuple(r) in kept for r, c in zip(rows, cols) if any(r) and not any(c)) and len(set(map(tuple, rows))) == len(rows):
